@@ -40,7 +40,34 @@ sys.path.insert(0, REPO)
 sys.path.insert(0, os.path.join(ROOT, 'tools'))
 sys.dont_write_bytecode = True
 
+# A run against another checkout (VERIF_REPO=/some/worktree: seeded breaking changes, fixes under development)
+# builds in a private copy of coq/ and ocaml/, so that its Gen.v does not churn the main build tree.
+MAIN_COQ = COQ
+ALT = None
+if os.path.realpath(REPO) != os.path.realpath('/repo'):
+    ALT = '/tmp/verif_alt_' + hashlib.md5(os.path.realpath(REPO).encode()).hexdigest()[:10]
+    COQ = os.path.join(ALT, 'coq')
+    os.environ['VERIF_GEN_OUT'] = os.path.join(COQ, 'gen', 'Gen.v')
+    os.environ['VERIF_OCAML_BUILD'] = os.path.join(ALT, 'ocaml', 'build')
+
 import build_drivers  # noqa: E402
+
+
+def sync_alt():
+    """copy the main build tree into the private one (under the main lock, so no half-written .vo is copied)"""
+    os.makedirs(os.path.join(MAIN_COQ, 'cases'), exist_ok=True)
+    os.makedirs(ALT, exist_ok=True)
+    with open(os.path.join(MAIN_COQ, '.lock'), 'w') as f:
+        fcntl.flock(f, fcntl.LOCK_EX)
+        try:
+            for d in ('coq', 'ocaml'):
+                subprocess.run(['rsync', '-a', '--delete', '--exclude', 'cases/', '--exclude', '.lock',
+                                '--exclude', 'gen/Gen.v', '--exclude', 'gen/Gen.vo', '--exclude', 'gen/Gen.glob',
+                                os.path.join(ROOT, d) + '/', os.path.join(ALT, d) + '/'], check=True)
+        finally:
+            fcntl.flock(f, fcntl.LOCK_UN)
+    os.makedirs(os.path.join(COQ, 'cases'), exist_ok=True)
+    os.makedirs(os.path.join(ALT, 'ocaml', 'build'), exist_ok=True)
 
 COQ_WARN = '-notation-overridden,-deprecated-hint-without-locality,-deprecated-instance-without-locality'
 FORBIDDEN = re.compile(
@@ -137,7 +164,7 @@ def coq_build(pid, mod):
     res = dict(gen_ok=True, model_ok=True, obligations=0, discharged=0, theorems=[], assumptions={},
                errors=[], checker_cmd='')
     os.makedirs(os.path.join(COQ, 'cases'), exist_ok=True)
-    os.makedirs(os.path.join(ROOT, 'ocaml', 'build'), exist_ok=True)
+    os.makedirs(os.environ.get('VERIF_OCAML_BUILD', os.path.join(ROOT, 'ocaml', 'build')), exist_ok=True)
     if True:
         rc, out, err = run([sys.executable, os.path.join(ROOT, 'tools', 'gen_constants.py')], timeout=120)
         if rc != 0:
@@ -432,6 +459,8 @@ def main():
     # ---- 1-3: Coq + driver + in-Coq evaluation of the first cases, under the lock
     vm_ok, vm_n, vm_msg = True, 0, ''
     exe = None
+    if ALT:
+        sync_alt()
     with CoqLock():
         if args.no_coq:
             cb = dict(gen_ok=True, model_ok=True, obligations=0, discharged=0, theorems=[], assumptions={},
